@@ -1,3 +1,7 @@
 import DosModel.Model.Content
+import DosModel.Model.Eval
 import DosModel.Gen.DosnodeConsts
-def main : IO Unit := Dos.lineLoop (Dos.Content.stepLine Dos.Gen.padSize Dos.Gen.stripLen)
+def main : IO Unit := Dos.lineLoop (fun l =>
+  match Dos.Eval.stepLine l with
+  | some o => o
+  | none => Dos.Content.stepLine Dos.Gen.padSize Dos.Gen.stripLen l)
